@@ -10,7 +10,7 @@ TARGETS = ["ovniemu", "ovnidump", "ovnitop", "ovnisort", "emu"]
 LEVEL = "exploration"
 RULE = ("valid traces (model-guided histories over all models, optionally with unsorted regions) with 1-3 "
         "structure-aware mutations of stream.obs (flags nibble, jumbo bit, jumbo size at edge values, truncation at "
-        "any offset incl. page multiples, clock extremes, listed MCVs with shorter/empty/longer payloads, byte "
+        "any offset incl. page multiples, clock extremes, listed MCVs with shorter/empty/longer payloads, very long string arguments, byte "
         "flips, inserted garbage) and of stream.json (type confusion per key, missing keys, huge/negative/"
         "fractional numbers, deep nesting, long strings, '/' in names, empty arrays, duplicate keys, non-UTF-8, "
         "truncated/empty file, CPU lists in any order with conflicts, malformed mark definitions); each mutant is "
@@ -34,7 +34,7 @@ PROF = gen.Profile(kinds=["region"] * 3 + ["task"] * 3 + ["idle", "mark", "flush
                    steps=(3, 30), modes=("legal",), lint=False, marks=1, ranks=True, breakdown=True)
 
 OBS_MUTS = ["flags", "jumbobit", "jumbosize", "truncate", "truncate-page", "clock", "payload-shape", "byteflip",
-            "insert", "mcv", "dup-event", "header"]
+            "insert", "mcv", "dup-event", "header", "longstr"]
 JSON_MUTS = ["typeconf", "delkey", "number", "nest", "longstr", "slash", "emptyarr", "dupkey", "nonutf8",
              "truncjson", "emptyjson", "cpus", "marks", "require"]
 
@@ -122,6 +122,13 @@ def mutate_obs(data, kind, a, b, c, d):
     if kind == "clock":
         ba[off + 4:off + 12] = struct.pack("<Q", CLOCKS[b % len(CLOCKS)])
         return bytes(ba)
+    if kind == "longstr":
+        # a well-formed jumbo event with a very long nil-terminated string argument
+        mcv = ["VYc", "6Yc"][b % 2]
+        n = [900, 1000, 1023, 1024, 1100, 2000, 5000, 70000, 1 << 20][c % 9]
+        body = struct.pack("<I", 1 + d % 50) + bytes([65 + (d % 26)]) * n + (b"\0" if (d >> 8) % 4 else b"")
+        new = obs.encode_ev(mcv, e.clock, body, jumbo=True)
+        return data[:off] + new + data[off:]
     if kind == "payload-shape":
         mcv = listed()[b % len(listed())]
         sizes = [0, 2, 3, 4, 7, 8, 12, 15, 16]
